@@ -87,13 +87,15 @@ type Graph struct {
 }
 
 type G struct {
-	InlineChildren bool // Index: entries carry their child manifest as inline data
-	T              *simrt.Tape
-	n              int
-	MaxBlob        int
-	pool           []*Blob // blobs available for sharing
-	Alg            string
-	NoExt          bool // never generate external (URL) layers
+	InlineChildren    bool // Index: entries carry their child manifest as inline data
+	T                 *simrt.Tape
+	n                 int
+	MaxBlob           int
+	pool              []*Blob // blobs available for sharing
+	lastCfg           *Blob   // config of the image generated last
+	Alg               string
+	NoExt             bool // never generate external (URL) layers
+	ArtifactAnnotMode int  // Artifact: 0 one annotation, 1 an empty annotations object, 2 none
 }
 
 func New(t *simrt.Tape) *G { return &G{T: t, MaxBlob: 600, Alg: "sha256"} }
@@ -201,6 +203,11 @@ func (g *G) Image(docker bool) *Node {
 	}
 	nl := g.c(4, "layers")
 	cfg := g.config(cmt, nl)
+	// now and then two images (platforms of one index) share one config blob
+	if g.lastCfg != nil && g.lastCfg.Desc.MediaType == cmt && g.c(6, "sharecfg") == 5 {
+		cfg = g.lastCfg
+	}
+	g.lastCfg = cfg
 	n.Blobs = append(n.Blobs, cfg)
 	var layers []Desc
 	for i := 0; i < nl; i++ {
@@ -261,10 +268,22 @@ func (g *G) Artifact(subject *Node, artType string) *Node {
 	empty := &Blob{Data: []byte("{}"), Hosted: true, Desc: Desc{MediaType: MTOCIEmpty, Digest: regmodel.Digest(g.Alg, []byte("{}")), Size: 2}}
 	n.Blobs = append(n.Blobs, empty)
 	b := g.blob("application/vnd.example.data")
+	// the usual shape of an artifact without content of its own: the empty JSON blob is both config and layer
+	if g.c(4, "cfglayer") == 3 {
+		b = empty
+	}
 	n.Blobs = append(n.Blobs, b)
 	g.n++
 	n.Annot = map[string]string{"org.example.serial": fmt.Sprint(g.n)}
 	fields := []kv{{"schemaVersion", 2}, {"mediaType", n.MediaType}, {"artifactType", artType}, {"config", empty.Desc}, {"layers", []Desc{b.Desc}}, {"annotations", n.Annot}}
+	switch g.ArtifactAnnotMode {
+	case 1: // an empty annotations object (what a tool that always allocates the map writes)
+		n.Annot = map[string]string{}
+		fields[len(fields)-1] = kv{"annotations", map[string]string{}}
+	case 2:
+		n.Annot = nil
+		fields = fields[:len(fields)-1]
+	}
 	if subject != nil {
 		n.Subject = subject.Digest
 		fields = append(fields, kv{"subject", Desc{MediaType: subject.MediaType, Digest: subject.Digest, Size: len(subject.Raw)}})
